@@ -79,7 +79,7 @@ package snapshot
 //@ func (o *snapshotter) prepareRemoteSnapshot
 //@   props C09,C08
 //@   requires o.ms != nil
-//@   modifies restoreTried, fsMountsOK
+//@   modifies restoreTried, fsMountsOK, txWritable
 //@   ghostentry restoreTried = restoreTried + 1
 //@   ensures[C09] restoreTried == old(restoreTried) + 1
 //@   ensures[C08] result == nil ==> fsMountsOK == old(fsMountsOK) + 1
@@ -100,3 +100,18 @@ package snapshot
 //@   loop 0 invariant (forall j int :: 0 <= j && j < len(rangeslice) ==> rangeslice[j] != nil) && restoreTried == old(restoreTried)
 //@   loop 1 invariant[C09] restoreTried == old(restoreTried) + rangeidx + 1 && len(rangeslice) == len(task)
 //@   ensures[C09] result == nil && !o.noRestore ==> restoreTried - old(restoreTried) == len(task)
+
+// ---- C08: the cleanup scan (metadata IDs against the directories on disk) runs inside a write transaction ----
+// A read transaction does not exclude a concurrent createSnapshot: a directory made after the ID map was read would be
+// taken for garbage. txWritable: the transaction most recently opened by this goroutine is a write transaction.
+//@ ghost txWritable bool
+//@ func (ms *github.com/containerd/containerd/v2/core/snapshots/storage.MetaStore) TransactionContext
+//@   trusted
+//@   modifies txWritable
+//@   ensures txWritable == writable && (result2 == nil ==> result1 != nil && result0 != nil)
+//@ func (o *snapshotter) getCleanupDirectories
+//@   trusted
+//@   requires[C08] txWritable
+//@ func (o *snapshotter) cleanupDirectories
+//@   props C08
+//@   requires o.ms != nil
